@@ -90,6 +90,7 @@ type fflInstance struct {
 	srs     interface{}
 	packs   [][][]*big.Int
 	points  [][]*big.Int
+	data    [][]byte
 	ts      []int
 	folded  [][]*big.Int
 	ext     [][]*big.Int
@@ -135,8 +136,8 @@ func (c *cv) fflDraw(t *rapid.T, tag string, maxPacks, maxPack, maxSize, maxPts 
 	return
 }
 
-func (c *cv) fflProve(t fataler, tau *big.Int, srs interface{}, packs [][][]*big.Int, points [][]*big.Int) *fflInstance {
-	in := &fflInstance{tau: tau, srs: srs, packs: packs, points: points}
+func (c *cv) fflProve(t fataler, tau *big.Int, srs interface{}, packs [][][]*big.Int, points [][]*big.Int, data ...[]byte) *fflInstance {
+	in := &fflInstance{tau: tau, srs: srs, packs: packs, points: points, data: data}
 	pk := reg.Field(srs, "Pk")
 	n := len(packs)
 	in.digests = reflect.MakeSlice(reflect.SliceOf(c.g1T), n, n)
@@ -164,16 +165,20 @@ func (c *cv) fflProve(t fataler, tau *big.Int, srs interface{}, packs [][][]*big
 			t.Fatalf("fflonk/%s: FoldAndCommit(pack) != [Σ_k f_k(τ^t)τ^k]G1", c.name)
 		}
 	}
-	res := c.ffl.F("BatchOpen", c.feVec3(packs).Interface(), in.digests.Interface(), c.feVec2(points).Interface(), sha256.New(), pk)
+	oargs := []interface{}{c.feVec3(packs).Interface(), in.digests.Interface(), c.feVec2(points).Interface(), sha256.New(), pk}
+	for _, d := range data {
+		oargs = append(oargs, d)
+	}
+	res := c.ffl.F("BatchOpen", oargs...)
 	if err := errOf(res); err != nil {
 		t.Fatalf("fflonk/%s: BatchOpen failed on an admissible statement: %v", c.name, err)
 	}
 	in.proof = ptrOf(res[0])
 	sp := reg.Field(in.proof, "SOpeningProof")
 	W, WP := reg.Field(sp, "W"), reg.Field(sp, "WPrime")
-	gamma, _ := c.shpChallenges(in.ext, in.digests, W, nil)
+	gamma, _ := c.shpChallenges(in.ext, in.digests, W, data)
 	w, wp, z := c.shpHonestLogs(tau, in.folded, in.ext, gamma, func(w *big.Int) *big.Int {
-		_, z := c.shpChallenges(in.ext, in.digests, c.pt(kG1, w), nil)
+		_, z := c.shpChallenges(in.ext, in.digests, c.pt(kG1, w), data)
 		return z
 	})
 	in.gamma, in.z = gamma, z
@@ -224,8 +229,12 @@ func (c *cv) fflStatementTrue(in *fflInstance, cvs [][][]*big.Int) bool {
 	return true
 }
 
-func (c *cv) fflVerify(proof interface{}, digests reflect.Value, points [][]*big.Int, srs interface{}) error {
-	return errOf(c.ffl.F("BatchVerify", proof, digests.Interface(), c.feVec2(points).Interface(), sha256.New(), reg.Field(srs, "Vk")))
+func (c *cv) fflVerify(proof interface{}, digests reflect.Value, points [][]*big.Int, srs interface{}, data ...[]byte) error {
+	args := []interface{}{proof, digests.Interface(), c.feVec2(points).Interface(), sha256.New(), reg.Field(srs, "Vk")}
+	for _, d := range data {
+		args = append(args, d)
+	}
+	return errOf(c.ffl.F("BatchVerify", args...))
 }
 
 func (c *cv) fflObjType() reflect.Type {
@@ -312,7 +321,7 @@ func (c *cv) fflExpectObj(in *fflInstance, o interface{}) (int, string) {
 	if !ok1 || !ok2 {
 		return noAssert, "proof_point_outside_subgroup"
 	}
-	gamma, z := c.shpChallenges(ext, digests, W, nil)
+	gamma, z := c.shpChallenges(ext, digests, W, in.data)
 	if c.shpRelation(in.tau, ext, cl, inner, w, wp, gamma, z) {
 		return mustAccept, "relation_holds"
 	}
@@ -389,12 +398,14 @@ func propFflonk(t *rapid.T, c *cv) {
 		tau = c.F.Add(tau, bi(1))
 	}
 	srs := c.newSRS(rep.Scale(64, 128), tau) // ≥ folded size (t·max size) + number of extended points
-	in := c.fflProve(t, tau, srs, packs, points)
-	don := c.fflProve(t, tau, srs, dpacks, dpoints)
-	key := fmt.Sprintf("%s tau=%s packs=%v points=%v", c.name, tau.Text(16), packs, points)
+	data, dclass := c.drawExtraData(t, "xd")
+	classes = append(classes, "extra_data_kind:"+dclass)
+	in := c.fflProve(t, tau, srs, packs, points, data...)
+	don := c.fflProve(t, tau, srs, dpacks, dpoints, data...)
+	key := fmt.Sprintf("%s tau=%s packs=%v points=%v data=%x", c.name, tau.Text(16), packs, points, data)
 
 	// (1) completeness
-	if err := c.fflVerify(in.proof, in.digests, points, srs); err != nil {
+	if err := c.fflVerify(in.proof, in.digests, points, srs, data...); err != nil {
 		t.Fatalf("fflonk/%s: honest proof rejected: %v (%s)", c.name, err, key)
 	}
 	nontriv := false
@@ -407,12 +418,19 @@ func propFflonk(t *rapid.T, c *cv) {
 	}
 	rep.Case(test, "honest "+key, nontriv, append([]string{"fflonk", "curve:" + c.name, "honest", fmt.Sprintf("packs:%d", len(packs))}, classes...)...)
 
+	// (1b) the optional transcript data: accepted with exactly the prover's data, rejected with any other byte string
+	c.extraDataCheck(t, test, "fflonk", data, key, func(B [][]byte) (int, string) {
+		inB := *in
+		inB.data = B
+		return c.fflExpectObj(&inB, c.fflObj(in))
+	}, func(B [][]byte) error { return c.fflVerify(in.proof, in.digests, points, srs, B...) })
+
 	// (2) reflective tampering (statement and proof)
 	runTamper(t, tamperRun{
 		test: test, scheme: "fflonk", c: c, honest: c.fflObj(in), donor: c.fflObj(don), key: key, max: 110,
 		verify: func(o interface{}) error {
 			v := reflect.ValueOf(o).Elem()
-			return c.fflVerify(v.Field(2).Addr().Interface(), v.Field(0), bigVec2(v.Field(1)), srs)
+			return c.fflVerify(v.Field(2).Addr().Interface(), v.Field(0), bigVec2(v.Field(1)), srs, data...)
 		},
 		expect: func(o interface{}, s Site, mut string) (int, string) { return c.fflExpectObj(in, o) },
 	})
@@ -445,7 +463,7 @@ func propFflonk(t *rapid.T, c *cv) {
 		o := c.fflObj(in)
 		reflect.ValueOf(o).Elem().Field(2).Set(fv)
 		want, why := c.fflExpectObj(in, o)
-		err := c.fflVerify(forged, in.digests, points, srs)
+		err := c.fflVerify(forged, in.digests, points, srs, data...)
 		if want == mustReject && err == nil {
 			t.Fatalf("fflonk/%s: FORGERY ACCEPTED: outer claimed value %v shifted with consistently re-folded inner values (%s) (%s)", c.name, s, why, key)
 		}
@@ -483,7 +501,7 @@ func propFflonk(t *rapid.T, c *cv) {
 			o := c.fflObj(in)
 			reflect.ValueOf(o).Elem().Field(2).Set(reflect.ValueOf(forged).Elem())
 			want, why := c.fflExpectObj(in, o)
-			err := c.fflVerify(forged, in.digests, points, srs)
+			err := c.fflVerify(forged, in.digests, points, srs, data...)
 			if want == mustReject && err == nil {
 				t.Fatalf("fflonk/%s: FORGERY ACCEPTED: outer claimed values (pack %d, polys %d,%d, point %d) moved within the kernel of the folding equation of root %d (%s) (%s)", c.name, i, k1, k2, j, l0, why, key)
 			}
@@ -518,18 +536,18 @@ func propFflonk(t *rapid.T, c *cv) {
 				if w, why := c.fflExpectObj(in, o); w != mustReject {
 					t.Fatalf("harness error: miscompensated shift expected to break the relation (%s)", why)
 				}
-				if err := c.fflVerify(near, in.digests, points, srs); err == nil {
+				if err := c.fflVerify(near, in.digests, points, srs, data...); err == nil {
 					t.Fatalf("fflonk/%s: FORGERY ACCEPTED: jointly shifted outer claimed values %v,%v with the compensation off by one verify — NOT the known finding F15 (%s)", c.name, slots[ia], slots[ib], key)
 				}
 				rep.Case(test, "miscompensated adaptive "+key, true, "fflonk", "curve:"+c.name, "adaptive_shift_miscompensated", "verdict:rejected")
 			}
 			if rep.Known(prop, keyF15) {
 				rep.Excluded(test, prop, keyF15)
-				if err := c.fflVerify(forged, in.digests, points, srs); err != nil {
+				if err := c.fflVerify(forged, in.digests, points, srs, data...); err != nil {
 					rep.Note(test, "F15 shift (through the folding) no longer verifies on "+c.name+": "+err.Error())
 				}
 			} else {
-				if err := c.fflVerify(forged, in.digests, points, srs); err == nil {
+				if err := c.fflVerify(forged, in.digests, points, srs, data...); err == nil {
 					t.Fatalf("fflonk/%s: FORGERY ACCEPTED: outer claimed values %v,%v shifted jointly after γ,z (inner values re-folded) verify although the claims are false [F15] (%s)",
 						c.name, slots[ia], slots[ib], key)
 				}
